@@ -23,7 +23,7 @@ fn render_line(cp: u32, kind: &str, v: u64, base: u32, model_cp: u32) -> String 
     let (gc, ccc, bidi, dec) = match v {
         1 => ("Lu", 0, "L", String::new()),
         2 => ("Mn", 9, "NSM", String::new()),
-        _ => ("So", 0, "R", format!("<wide> {:04X}", base + model_cp + 32)),
+        _ => ("So", 0, "R", format!("<wide> {:04X}", base + 32 + model_cp / 2)),
     };
     format!("{:04X};{};{};{};{};{};;;;N;;;;;", cp, name, gc, ccc, bidi, dec)
 }
